@@ -152,7 +152,23 @@ class Effects:
                             path.append("[]")
                     e = e[2][0]
                 else:
-                    return Loc(("unknown", "call " + name), [])
+                    # a reference result of a call with exactly ONE reference-typed argument points somewhere below
+                    # that argument (lifetime elision; e.g. builder methods `fn(&mut self, ..) -> &mut Self`): continue
+                    # with the argument, forgetting the sub-path (= its whole subtree, a sound over-approximation)
+                    nxt = None
+                    at = e[3] if len(e) > 3 else None
+                    if at and at[0] < len(ev.body.blocks):
+                        term = ev.body.blocks[at[0]].term
+                        if term is not None and term.k == "call" and len(term.args) == len(e[2]):
+                            tys = [(a.place.ty if a.place is not None else "") for a in term.args]
+                            refs = [i for i, ty in enumerate(tys) if ty.startswith("&") or ty.startswith("*") or contains_mut_ref(ty)]
+                            dty = term.dest.ty
+                            if len(refs) == 1 and (dty.startswith("&") or contains_mut_ref(dty)):
+                                nxt = e[2][refs[0]]
+                    if nxt is None:
+                        return Loc(("unknown", "call " + name), [])
+                    path = []
+                    e = nxt
             elif t == "agg":
                 # tuple / struct built from pointers: ambiguous -> unknown unless single operand
                 ops = [o for o in e[3] if o[0] not in ("const",)]
